@@ -44,6 +44,7 @@ class TState:
         self.fn_failed = False
         self.deadline = None      # virtual time at which a timed wait of this thread expires (None: not in a timed wait)
         self.expired = False
+        self.helper = False       # started inside run_function_on_graph, but not one of its workers
 
 
 class EngineTrace:
@@ -461,7 +462,12 @@ class CoopThread:
         ts = self.ts
         tr = s.cur_trace
         ts.trace = tr
-        if tr is not None:
+        # a thread whose target is not the pool's worker loop (no `process_item` in its closure): a helper the engine model
+        # does not have.  It runs under the scheduler like any other thread, but is no worker: the trace is marked off-model.
+        ts.helper = tr is not None and _cells_of(self.target) is None
+        if ts.helper:
+            tr.off_model = "run_function_on_graph started a thread that is not one of its workers (%r)" % (getattr(self.target, "__name__", self.target),)
+        elif tr is not None:
             ts.widx = len(tr.workers)
             tr.workers.append(ts)
             if tr.cells is None:
@@ -496,9 +502,16 @@ class CoopThread:
         if s.aborting:
             return
         s.yield_point()
+        me = s.current()
         while not self.ts.finished:
             if s.aborting:
                 return
+            if (me is s.main and getattr(self.ts, "helper", False) and s.interrupt_at is not None and not s.interrupted
+                    and s.begins >= s.interrupt_at):
+                # Ctrl-C reaches the calling thread while it waits for a helper thread (not for a worker: an interrupt during
+                # the final join of the pool is outside C17's statement)
+                s.interrupted = True
+                raise KeyboardInterrupt()
             s.block(("join", self.ts))
 
     def is_alive(self):
@@ -655,6 +668,8 @@ def _wrapped_rfog(graph, fn, *, worker_count=None, max_errors=0, scheduler=None)
         if s.interrupt_at is not None and not s.interrupted and s.begins >= s.interrupt_at:
             b = s.main.blocked
             if b is not None and b[0] == "cond" and b[1].name == "all_tasks_done":
+                s.main.blocked = None
+            elif b is not None and b[0] == "join" and getattr(b[1], "helper", False):
                 s.main.blocked = None
         s.yield_point()
         try:
